@@ -278,7 +278,7 @@ pub fn run_case(case: &Case) -> Outcome {
                         }
                         Err(e) => {
                             out.result = e.to_string();
-                            if failed.is_empty() && !p.keys.optional() && p.noise == Noise::None {
+                            if failed.is_empty() && !p.keys.optional() && p.noise == Noise::None && !p.integers {
                                 out.violation = Some((Class::RoundTrip, format!("deserializing the output presented as {p:?} fails: {e} (output: {})", rec.show())));
                             }
                             // keys as bytes / positions: an impl may refuse them; what it must not do is accept them and restore something else
@@ -399,37 +399,43 @@ fn presentations(r: &mut Rng, is_f32: bool, all: bool) -> Vec<Presentation> {
     let widen: &[bool] = if is_f32 { &[false, true] } else { &[false] };
     // human-readable, self-describing formats (JSON, YAML, TOML ...): one number type, so f32 parts may arrive as f64
     for &f32_as_f64 in widen {
-        v.push(Presentation { shape: Shape::Seq, order: Order::Written, keys: KeyForm::Str, f32_as_f64, human_readable: true, noise: Noise::None, no_size_hint: false });
+        v.push(Presentation { shape: Shape::Seq, order: Order::Written, keys: KeyForm::Str, f32_as_f64, human_readable: true, noise: Noise::None, no_size_hint: false, narrow_floats: false, integers: false });
         for order in [Order::Written, Order::Reversed, Order::Sorted, Order::Permuted(r.next()), Order::Permuted(r.next())] {
             for keys in [KeyForm::Str, KeyForm::Owned, KeyForm::Borrowed] {
-                v.push(Presentation { shape: Shape::Map, order, keys, f32_as_f64, human_readable: true, noise: Noise::None, no_size_hint: false });
+                v.push(Presentation { shape: Shape::Map, order, keys, f32_as_f64, human_readable: true, noise: Noise::None, no_size_hint: false, narrow_floats: false, integers: false });
             }
         }
     }
     // keys as bytes / as field positions (what serde's derive accepts besides strings; packed binary formats)
     for keys in [KeyForm::Bytes, KeyForm::Index] {
         for (order, hr) in [(Order::Written, true), (Order::Reversed, true), (Order::Written, false), (Order::Permuted(r.next()), false)] {
-            v.push(Presentation { shape: Shape::Map, order, keys, f32_as_f64: false, human_readable: hr, noise: Noise::None, no_size_hint: false });
+            v.push(Presentation { shape: Shape::Map, order, keys, f32_as_f64: false, human_readable: hr, noise: Noise::None, no_size_hint: false, narrow_floats: false, integers: false });
         }
     }
     // maps that also hold unknown entries, or one entry twice (an impl may refuse them: Err tolerated, Ok must be right)
     for (order, keys) in [(Order::Written, KeyForm::Str), (Order::Permuted(r.next()), KeyForm::Owned), (Order::Sorted, KeyForm::Borrowed)] {
-        v.push(Presentation { shape: Shape::Map, order, keys, f32_as_f64: false, human_readable: true, noise: Noise::Unknown(r.next()), no_size_hint: false });
-        v.push(Presentation { shape: Shape::Map, order, keys, f32_as_f64: false, human_readable: true, noise: Noise::Duplicate(r.next()), no_size_hint: false });
+        v.push(Presentation { shape: Shape::Map, order, keys, f32_as_f64: false, human_readable: true, noise: Noise::Unknown(r.next()), no_size_hint: false, narrow_floats: false, integers: false });
+        v.push(Presentation { shape: Shape::Map, order, keys, f32_as_f64: false, human_readable: true, noise: Noise::Duplicate(r.next()), no_size_hint: false, narrow_floats: false, integers: false });
     }
     // hint-driven presentation (serde's flatten buffer, property-lookup formats)
     for keys in [KeyForm::Str, KeyForm::Owned, KeyForm::Borrowed] {
-        v.push(Presentation { shape: Shape::MapByHint, order: Order::Written, keys, f32_as_f64: false, human_readable: true, noise: Noise::None, no_size_hint: false });
+        v.push(Presentation { shape: Shape::MapByHint, order: Order::Written, keys, f32_as_f64: false, human_readable: true, noise: Noise::None, no_size_hint: false, narrow_floats: false, integers: false });
     }
     // streaming formats: no size hints
-    v.push(Presentation { shape: Shape::Seq, order: Order::Written, keys: KeyForm::Str, f32_as_f64: false, human_readable: true, noise: Noise::None, no_size_hint: true });
-    v.push(Presentation { shape: Shape::Map, order: Order::Written, keys: KeyForm::Str, f32_as_f64: false, human_readable: true, noise: Noise::None, no_size_hint: true });
-    v.push(Presentation { shape: Shape::Seq, order: Order::Written, keys: KeyForm::Str, f32_as_f64: false, human_readable: false, noise: Noise::None, no_size_hint: true });
+    v.push(Presentation { shape: Shape::Seq, order: Order::Written, keys: KeyForm::Str, f32_as_f64: false, human_readable: true, noise: Noise::None, no_size_hint: true, narrow_floats: false, integers: false });
+    v.push(Presentation { shape: Shape::Map, order: Order::Written, keys: KeyForm::Str, f32_as_f64: false, human_readable: true, noise: Noise::None, no_size_hint: true, narrow_floats: false, integers: false });
+    v.push(Presentation { shape: Shape::Seq, order: Order::Written, keys: KeyForm::Str, f32_as_f64: false, human_readable: false, noise: Noise::None, no_size_hint: true, narrow_floats: false, integers: false });
+    // narrowest-exact-width floats (binary formats), and integral parts arriving as integers (tolerant)
+    for hr in [true, false] {
+        v.push(Presentation { shape: Shape::Map, order: Order::Written, keys: KeyForm::Str, f32_as_f64: false, human_readable: hr, noise: Noise::None, no_size_hint: false, narrow_floats: true, integers: false });
+        v.push(Presentation { shape: Shape::Seq, order: Order::Written, keys: KeyForm::Str, f32_as_f64: false, human_readable: hr, noise: Noise::None, no_size_hint: false, narrow_floats: true, integers: false });
+        v.push(Presentation { shape: Shape::Map, order: Order::Sorted, keys: KeyForm::Owned, f32_as_f64: false, human_readable: hr, noise: Noise::None, no_size_hint: false, narrow_floats: false, integers: true });
+    }
     // binary formats (is_human_readable() = false): positional (bincode, postcard) or with named fields (CBOR, MessagePack)
-    v.push(Presentation { shape: Shape::Seq, order: Order::Written, keys: KeyForm::Str, f32_as_f64: false, human_readable: false, noise: Noise::None, no_size_hint: false });
+    v.push(Presentation { shape: Shape::Seq, order: Order::Written, keys: KeyForm::Str, f32_as_f64: false, human_readable: false, noise: Noise::None, no_size_hint: false, narrow_floats: false, integers: false });
     for order in [Order::Written, Order::Permuted(r.next())] {
         for keys in [KeyForm::Str, KeyForm::Owned, KeyForm::Borrowed] {
-            v.push(Presentation { shape: Shape::Map, order, keys, f32_as_f64: false, human_readable: false, noise: Noise::None, no_size_hint: false });
+            v.push(Presentation { shape: Shape::Map, order, keys, f32_as_f64: false, human_readable: false, noise: Noise::None, no_size_hint: false, narrow_floats: false, integers: false });
         }
     }
     if all {
@@ -440,7 +446,8 @@ fn presentations(r: &mut Rng, is_f32: bool, all: bool) -> Vec<Presentation> {
     let by_hint = v.iter().position(|p| p.shape == Shape::MapByHint).unwrap();
     let opt = v.iter().position(|p| p.keys.optional()).unwrap();
     let noisy = v.iter().position(|p| p.noise != Noise::None).unwrap();
-    let mut pick = vec![v[0], v[1 + r.below(3)], v[bin_seq], v[by_hint + r.below(3)], v[opt + r.below(8)], v[noisy + r.below(6)]];
+    let narrow = v.iter().position(|p| p.narrow_floats).unwrap();
+    let mut pick = vec![v[0], v[1 + r.below(3)], v[bin_seq], v[by_hint + r.below(3)], v[opt + r.below(8)], v[noisy + r.below(6)], v[narrow + r.below(2)]];
     for _ in 0..2 {
         pick.push(v[r.below(v.len())]);
     }
@@ -542,7 +549,7 @@ fn op_tag(op: &Op) -> u64 {
         Op::Ser(_, hr) => 1 + *hr as u64,
         Op::De(p, _) | Op::DeInPlace(p, _, _) => {
             (if matches!(op, Op::DeInPlace(..)) { 4096 } else { 0 }) + 10 + match p.shape { Shape::Map => 0, Shape::Seq => 1, Shape::MapByHint => 128 } + 2 * match p.order { Order::Written => 0, Order::Reversed => 1, Order::Sorted => 2, Order::Permuted(_) => 3 }
-                + 8 * match p.keys { KeyForm::Str => 0, KeyForm::Owned => 1, KeyForm::Borrowed => 2, KeyForm::Bytes => 256, KeyForm::Index => 512 } + 32 * p.f32_as_f64 as u64 + 64 * p.human_readable as u64 + 8192 * p.no_size_hint as u64 + 1024 * match p.noise { Noise::None => 0, Noise::Unknown(_) => 1, Noise::Duplicate(_) => 2 }
+                + 8 * match p.keys { KeyForm::Str => 0, KeyForm::Owned => 1, KeyForm::Borrowed => 2, KeyForm::Bytes => 256, KeyForm::Index => 512 } + 32 * p.f32_as_f64 as u64 + 64 * p.human_readable as u64 + 8192 * p.no_size_hint as u64 + 16384 * p.narrow_floats as u64 + 32768 * p.integers as u64 + 1024 * match p.noise { Noise::None => 0, Noise::Unknown(_) => 1, Noise::Duplicate(_) => 2 }
         }
         Op::Json(p) => 100 + *p as u64,
         Op::JsonWriter { one_byte, .. } => 200 + *one_byte as u64,
@@ -739,9 +746,9 @@ fn minimise(mut case: Case, class: &Class, known_keys: &[String]) -> (Case, Outc
     if let Op::De(p, plan) = case.op.clone() {
         // simplest presentation first
         for q in [
-            Presentation { shape: Shape::Map, order: Order::Written, keys: KeyForm::Str, f32_as_f64: false, human_readable: true, noise: Noise::None, no_size_hint: false },
-            Presentation { shape: Shape::Map, order: Order::Reversed, keys: KeyForm::Str, f32_as_f64: p.f32_as_f64, human_readable: true, noise: Noise::None, no_size_hint: false },
-            Presentation { shape: Shape::Map, order: Order::Sorted, keys: KeyForm::Str, f32_as_f64: p.f32_as_f64, human_readable: true, noise: Noise::None, no_size_hint: false },
+            Presentation { shape: Shape::Map, order: Order::Written, keys: KeyForm::Str, f32_as_f64: false, human_readable: true, noise: Noise::None, no_size_hint: false, narrow_floats: false, integers: false },
+            Presentation { shape: Shape::Map, order: Order::Reversed, keys: KeyForm::Str, f32_as_f64: p.f32_as_f64, human_readable: true, noise: Noise::None, no_size_hint: false, narrow_floats: false, integers: false },
+            Presentation { shape: Shape::Map, order: Order::Sorted, keys: KeyForm::Str, f32_as_f64: p.f32_as_f64, human_readable: true, noise: Noise::None, no_size_hint: false, narrow_floats: false, integers: false },
             Presentation { noise: Noise::None, ..p },
             Presentation { human_readable: true, ..p },
             Presentation { keys: KeyForm::Str, ..p },
@@ -1168,7 +1175,7 @@ fn main() {
     let rule = "one case = (type, seeded value, operation with presentation and fault plan) executed against the real derived Serialize/Deserialize code; \
 for every value: the fault-free serialization (J1), EVERY single-fault position on the way out (reject-once and reject-from at each serializer call), every presentation of the recorded output \
 fault-free (sequence form; map form restricted to and ordered by the `fields` hint of deserialize_struct; map form in written / reversed / key-sorted / two seeded per-struct permutations x transient / owned / borrowed keys; keys as bytes or as field positions (an impl may refuse these: Err tolerated, Ok must restore exactly); f32 parts also as f64; each as a format answering is_human_readable() true and, for the binary-format shapes, false), EVERY single-fault position on the way in \
-under the swept presentations (quick: 8 per value; thorough: all), seeded multi-fault plans, and the serde_json tier (5 round-trip paths, writer failing at its k-th write, output truncated to k bytes). \
+under the swept presentations (quick: 9 per value; thorough: all), seeded multi-fault plans, and the serde_json tier (5 round-trip paths, writer failing at its k-th write, output truncated to k bytes). \
 The thorough tier adds EVERY pair of rejected serializer calls for histories of at most 30 calls. distinct_nontrivial = number of distinct histories (type, operation, presentation, per-call kind/name/verdict, return) among cases in which at least one injected fault actually fired";
     let ev = serde_json::json!({
         "property_id": "C16",
